@@ -79,10 +79,18 @@ int RunTl(const std::string& op, int slot, int val) {
   using S0 = nop::ThreadLocal<int, nop::ThreadLocalIndexSlot<0>>;
   using S1 = nop::ThreadLocal<int, nop::ThreadLocalIndexSlot<1>>;
   using S2 = nop::ThreadLocal<long, nop::ThreadLocalIndexSlot<0>>;
+  // the other ways of naming a slot, all over int: the default slot, a (type, index) slot and a type slot - each must be
+  // storage of its own, distinct from the index slots above
+  using S3 = nop::ThreadLocal<int>;
+  using S4 = nop::ThreadLocal<int, nop::ThreadLocalSlot<void, 1>>;
+  using S5 = nop::ThreadLocal<int, nop::ThreadLocalTypeSlot<long>>;
   switch (slot) {
     case 0: return TlOp<S0, int>(op, val);
     case 1: return TlOp<S1, int>(op, val);
-    default: return TlOp<S2, long>(op, val);
+    case 2: return TlOp<S2, long>(op, val);
+    case 3: return TlOp<S3, int>(op, val);
+    case 4: return TlOp<S4, int>(op, val);
+    default: return TlOp<S5, int>(op, val);
   }
 }
 
